@@ -394,13 +394,27 @@ func TestLoopScopeTableV2(t *testing.T) {
 					}
 					body = append(body, as.mk()...)
 					body = append(body, gen.NCall("probe", str("assigned"), id("loc")))
-					if esc == 1 {
-						body = append(body, gen.NContinue())
+					for tail := 0; tail < 5; tail++ {
+						// what the pass does after the assignment: nothing more; an inner loop left by break / continue / run to its end
+						b2 := gen.CloneProg(body)
+						switch tail {
+						case 1:
+							b2 = append(b2, gen.NForIn("x", gen.NList(i64(1), i64(2)), []*gen.Node{gen.NBreak()}))
+						case 2:
+							b2 = append(b2, gen.NForIn("x", str("ab"), []*gen.Node{gen.NSet("inner", id("x")), gen.NIf([]*gen.Node{gen.NBool(true)}, [][]*gen.Node{{gen.NBreak()}}, nil, false)}))
+						case 3:
+							b2 = append(b2, gen.NFor(gen.NSet("j", i64(0)), gen.NBin("<", id("j"), i64(2)), gen.NSet("j", gen.NBin("+", id("j"), i64(1))), []*gen.Node{gen.NSet("inner", id("j")), gen.NBreak()}))
+						case 4:
+							b2 = append(b2, gen.NForIn("x", gen.NList(i64(1), i64(2)), []*gen.Node{gen.NContinue()}), gen.NForIn("k", gen.NMap(str("only"), i64(1)), []*gen.Node{gen.NBreak()}))
+						}
+						if esc == 1 {
+							b2 = append(b2, gen.NContinue())
+						}
+						prog := append(lp.mk(b2), gen.NCall("probe", str("done")))
+						c := sem.NewCase(gen.FixAll(prog))
+						judge(t, "loop-scope", c, fmt.Sprintf("loopscope/%s/%s/%d/%d/%d", lp.name, as.name, readAt, esc, tail), true, "loop-scope-v2")
+						n++
 					}
-					prog := append(lp.mk(body), gen.NCall("probe", str("done")))
-					c := sem.NewCase(gen.FixAll(prog))
-					judge(t, "loop-scope", c, fmt.Sprintf("loopscope/%s/%s/%d/%d", lp.name, as.name, readAt, esc), true, "loop-scope-v2")
-					n++
 				}
 			}
 		}
@@ -468,6 +482,56 @@ func TestSliceCopyTableV2(t *testing.T) {
 		}
 	}
 	evid.Exhaustive("v2: slice form x write form x written side x index x nesting of the source", n)
+}
+
+// TestIndexPathsV2: reads through index paths of depth 1..3 over a nested value: a key that is absent - at the end of
+// the path or before it - gives nil like in the reference semantics; the keys are evaluated once, left to right,
+// as far as the path is followed.
+func TestIndexPathsV2(t *testing.T) {
+	shape := func() *gen.Node {
+		return gen.NMap(str("a"), gen.NMap(str("b"), i64(1), str("n"), gen.NNil()), str("l"), gen.NList(gen.NMap(str("c"), i64(2)), gen.NList(i64(3), i64(4))), str("s"), str("str"), str("z"), gen.NNil())
+	}
+	keys := []func() *gen.Node{
+		func() *gen.Node { return str("a") }, func() *gen.Node { return str("b") }, func() *gen.Node { return str("l") }, func() *gen.Node { return str("zz") }, func() *gen.Node { return str("z") }, func() *gen.Node { return str("s") },
+		func() *gen.Node { return i64(0) }, func() *gen.Node { return i64(1) }, func() *gen.Node { return i64(-1) }, func() *gen.Node { return i64(5) }, func() *gen.Node { return str("c") }, func() *gen.Node { return str("n") },
+	}
+	n := 0
+	var rec func(path []int)
+	rec = func(path []int) {
+		if len(path) > 0 {
+			for form := 0; form < 3; form++ {
+				var ix []*gen.Node
+				for _, k := range path {
+					kn := keys[k]()
+					if form == 1 {
+						kn = gen.NCall("pval", kn) // every key leaves a record when it is evaluated
+					}
+					ix = append(ix, kn)
+				}
+				var prog []*gen.Node
+				switch form {
+				case 2:
+					prog = []*gen.Node{gen.NSet("m", shape()), gen.NIf([]*gen.Node{gen.NIndex(id("m"), ix...)}, [][]*gen.Node{{gen.NCall("probe", str("then"))}}, []*gen.Node{gen.NCall("probe", str("else"))}, true)}
+				default:
+					prog = []*gen.Node{gen.NSet("m", shape()), gen.NSet("r", gen.NIndex(id("m"), ix...)), gen.NCall("probe", str("r"), id("r"))}
+				}
+				c := sem.NewCase(gen.FixAll(prog))
+				judge(t, "index-paths", c, fmt.Sprintf("indexpath/%v/%d", path, form), true, "index-paths-v2")
+				n++
+			}
+		}
+		if len(path) == 3 {
+			return
+		}
+		for k := range keys {
+			if len(path) == 2 && k%2 == 1 {
+				continue // half of the keys at the third level
+			}
+			rec(append(append([]int{}, path...), k))
+		}
+	}
+	rec(nil)
+	evid.Exhaustive("v2 index paths of depth 1..3 over a nested value x {plain keys, recorded keys, as a condition}", n)
 }
 
 func TestFixedDialect(t *testing.T) {
